@@ -55,8 +55,16 @@ class SArr(real_np.ndarray):
 
     def __array_ufunc__(self, ufunc, method, *inputs, **kw):
         ins = [real_np.asarray(i) if isinstance(i, SArr) else i for i in inputs]
+        outs = None
         if 'out' in kw:
             kw['out'] = tuple(real_np.asarray(o) if isinstance(o, SArr) else o for o in kw['out'])
+            if method == '__call__' and len(kw['out']) == 1 and kw['out'][0] is not None and set(kw) == {'out'}:
+                # ufunc(..., out=target): evaluate with the symbolic element-wise semantics, then store into the target (in place)
+                outs = kw.pop('out')
+        if outs is not None:
+            r = SArr.__array_ufunc__(self, ufunc, method, *inputs)
+            outs[0][...] = real_np.asarray(r)
+            return outs[0].view(SArr) if outs[0].dtype == object else outs[0]
         if method == '__call__' and ufunc in _CMP:
             op = _CMP[ufunc]
             r = real_np.frompyfunc(lambda a, b: compare(op, a, b), 2, 1)(*ins)
@@ -85,6 +93,13 @@ class SArr(real_np.ndarray):
 
     def any(self, axis=None, **kw):
         return _reduce_bool(real_np.asarray(self), axis, OR)
+
+    def view(self, *a, **k):
+        dt = k.get('dtype', a[0] if a else None)
+        if dt is not None and not isinstance(dt, type) and real_np.asarray(self).dtype == object:
+            # reinterpreting the bytes of an integer array (structured / byte views): a C boundary, concrete values needed
+            return self._concrete().astype(real_np.int64).view(*a, **k)
+        return real_np.ndarray.view(self, *a, **k)
 
     def astype(self, dtype, **kw):
         if dtype in (int, real_np.int_, real_np.int64, real_np.int32, 'int', float, real_np.float64, complex,
@@ -115,6 +130,81 @@ class SArr(real_np.ndarray):
 
     def tostring(self, *a, **k):
         return self._concrete().tobytes(*a, **k)
+
+
+C_BOUNDARY = {}      # numpy functions without symbolic semantics that were entered with symbolic data (name -> calls)
+
+
+def _has_sym(x, depth=0):
+    if isinstance(x, (SV, SC, SDyad)):
+        return True
+    if isinstance(x, real_np.ndarray):
+        return x.dtype == object and any(isinstance(v, (SV, SC, SDyad)) for v in x.reshape(-1))
+    if isinstance(x, (list, tuple)) and depth < 2:
+        return any(_has_sym(v, depth + 1) for v in x)
+    return False
+
+
+def _make_concrete(x, depth=0):
+    if isinstance(x, SV):
+        return bool(x) if x.kind == 'b' else int(x)
+    if isinstance(x, real_np.ndarray) and x.dtype == object:
+        return x.view(SArr)._concrete()
+    if isinstance(x, (list, tuple)) and depth < 2:
+        return type(x)(_make_concrete(v, depth + 1) for v in x)
+    return x
+
+
+def _c_boundary(name, fn):
+    """a numpy function that has no symbolic stand-in: called as it is; if it cannot digest symbolic entries (C loops,
+    dtype views, bit unpacking, transcendental functions) the symbolic arguments are made concrete -- the path explorer
+    forks over their feasible values, exactly as for any other place where Python needs a concrete value"""
+    def call(*a, **k):
+        if not (any(_has_sym(x) for x in a) or any(_has_sym(x) for x in k.values())):
+            return fn(*a, **k)
+        try:
+            return fn(*a, **k)
+        except (TypeError, ValueError, AttributeError):
+            C_BOUNDARY[name] = C_BOUNDARY.get(name, 0) + 1
+            a2 = tuple(_make_concrete(x) for x in a)
+            k2 = {kk: _make_concrete(v) for kk, v in k.items()}
+            return fn(*a2, **k2)
+    call.__name__ = name
+    return call
+
+
+class UArr(SArr):
+    """an array the caller declared with an unsigned integer dtype (numpy.uint8 readout bits, ...): element-wise + - *
+    and unary minus with Python / symbolic scalars or other unsigned arrays wrap modulo 2**width, as numpy's do; any
+    other operation gives an ordinary (mathematical-integer) array.  Only harnesses create these."""
+    _uw = 8
+
+    def __array_finalize__(self, obj):
+        self._uw = getattr(obj, '_uw', 8)
+
+    def __array_ufunc__(self, ufunc, method, *inputs, **kw):
+        wrapping = (real_np.add, real_np.subtract, real_np.multiply, real_np.negative, real_np.positive)
+        plain = tuple(i.view(SArr) if isinstance(i, UArr) else i for i in inputs)
+        r = SArr.__array_ufunc__(plain[0] if isinstance(plain[0], SArr) else [p for p in plain if isinstance(p, SArr)][0], ufunc, method, *plain, **kw)
+        if method == '__call__' and ufunc in wrapping and isinstance(r, real_np.ndarray) and \
+                all(isinstance(i, UArr) or not isinstance(i, real_np.ndarray) for i in inputs) and \
+                all(isinstance(i, (UArr, int, real_np.integer, SV)) and not isinstance(i, (bool, real_np.bool_)) for i in inputs):
+            w = max(i._uw for i in inputs if isinstance(i, UArr))
+            out = real_np.frompyfunc(lambda v: arith('%', v, 1 << w), 1, 1)(real_np.asarray(r, dtype=object))
+            out = real_np.asarray(out, dtype=object).reshape(real_np.shape(r)).view(UArr)
+            out._uw = w
+            return out
+        return r
+
+    def astype(self, dtype, **kw):
+        return self.view(SArr).astype(dtype, **kw)
+
+
+def as_unsigned(a, width=8):
+    """harness helper: the symbolic array `a` (entries in 0 .. 2**width-1) seen as an unsigned-dtype array"""
+    out = real_np.array(a, dtype=object).view(UArr)
+    out._uw = width
+    return out
 
 
 def _reduce_bool(a, axis, fold):
@@ -203,7 +293,16 @@ class NPShim:
         self.random = RandomShim()
 
     def __getattr__(self, name):
-        return getattr(real_np, name)
+        attr = getattr(real_np, name)
+        if isinstance(attr, type) or not callable(attr) or name.startswith('_'):
+            return attr
+        return _c_boundary(name, attr)
+
+    def dtype(self, *a, **k):
+        # symbolic integer arrays are object arrays standing for int64 arrays: a dtype derived from theirs is derived from int64
+        if a and isinstance(a[0], tuple) and len(a[0]) == 2 and a[0][0] == real_np.dtype(object):
+            a = ((real_np.dtype(real_np.int64), a[0][1]),) + tuple(a[1:])
+        return real_np.dtype(*a, **k)
 
     # ---- constructors
     def zeros(self, shape, dtype=None, **kw):
@@ -303,14 +402,23 @@ class NPShim:
             return real_np.any(a, axis)
         return _reduce_bool(a, axis, OR)
 
-    def logical_and(self, a, b):
-        return _collapse(real_np.frompyfunc(b_and, 2, 1)(real_np.asarray(a), real_np.asarray(b)))
+    @staticmethod
+    def _into(r, out):
+        """ufunc(..., out=target): store the result into the caller's array, in place"""
+        if out is None:
+            return r
+        tgt = out[0] if isinstance(out, tuple) else out
+        real_np.asarray(tgt)[...] = real_np.asarray(r)
+        return tgt
 
-    def logical_or(self, a, b):
-        return _collapse(real_np.frompyfunc(b_or, 2, 1)(real_np.asarray(a), real_np.asarray(b)))
+    def logical_and(self, a, b, out=None):
+        return self._into(_collapse(real_np.frompyfunc(b_and, 2, 1)(real_np.asarray(a), real_np.asarray(b))), out)
 
-    def logical_not(self, a):
-        return _collapse(real_np.frompyfunc(b_not, 1, 1)(real_np.asarray(a)))
+    def logical_or(self, a, b, out=None):
+        return self._into(_collapse(real_np.frompyfunc(b_or, 2, 1)(real_np.asarray(a), real_np.asarray(b))), out)
+
+    def logical_not(self, a, out=None):
+        return self._into(_collapse(real_np.frompyfunc(b_not, 1, 1)(real_np.asarray(a))), out)
 
     def where(self, c, *ab):
         if not ab:
